@@ -1,5 +1,5 @@
 //@ unit U-METRICS
-//@ props C03 C14
+//@ props C03 C14 C01
 //@ verus-args --rlimit 100
 //@ config MAX_XORB_BYTES MAX_XORB_CHUNKS INGESTION_BLOCK_SIZE
 #![feature(allocator_api)]
@@ -189,7 +189,7 @@ impl SingleFileCleaner {
 //@ contract
         requires old(self).wf(), data@.len() <= isize::MAX, old(self).stream().len() + data@.len() <= usize::MAX,
         ensures match r {
-            Ok(()) => final(self).wf() && /*@C03,C14*/ final(self).stream() == old(self).stream() + data@
+            Ok(()) => final(self).wf() && /*@C01,C03,C14*/ final(self).stream() == old(self).stream() + data@
                       && chunker_max(&final(self).chunker) == chunker_max(&old(self).chunker),
             Err(_) => true,
         },
@@ -211,7 +211,7 @@ impl SingleFileCleaner {
         requires old(self).wf(), data@.len() <= isize::MAX, old(self).stream().len() + data@.len() <= usize::MAX,
         ensures match r {
             // C03: the state reached does not depend on the ingestion block size - exactly `data` was fed, in order
-            Ok(()) => final(self).wf() && /*@C03,C14*/ final(self).stream() == old(self).stream() + data@,
+            Ok(()) => final(self).wf() && /*@C01,C03,C14*/ final(self).stream() == old(self).stream() + data@,
             Err(_) => true,
         },
 //@ body-start
